@@ -27,6 +27,16 @@ Record sgstate := {
   scnt : list Z
 }.
 
+(** the definitions: Handler::addArgument( spec, subGroup, desc) and internAddArgument refuse a key that is taken in
+    either container (after "fix: the key of a sub-group argument and the key of a plain argument of the same
+    handler must differ"); [sg_keys_ok] is what an accepted sequence of definitions guarantees, in any order *)
+Definition key_free (ks : list key) (k : key) : bool :=
+  forallb (fun k' => negb (key_eq k' k) && negb (key_mismatch k' k)) ks.
+Fixpoint keys_distinct (ks : list key) : bool :=
+  match ks with [] => true | k :: r => key_free r k && keys_distinct r end.
+Definition sg_keys_ok (c : sgcfg) : bool :=
+  keys_distinct (map a_key (args (sg_main c)) ++ map fst (sg_subs c)).
+
 Definition sub_table (c : sgcfg) : @table nat :=
   (fix go (l : list (key * cfg)) (i : nat) : @table nat :=
      match l with [] => [] | (k, _) :: r => (k, i) :: go r (S i) end) (sg_subs c) 0.
